@@ -97,6 +97,15 @@ def catch_blocks(fn):
     return out
 
 
+# catch-all handlers that end an exception on purpose: function -> (the only calls the guarded region may contain, reason)
+OPTIONAL_STEP_HANDLERS = {
+    'tbb::detail::d2::concurrent_hash_map::lookup': (
+        ('enable_segment',),
+        'it guards only the optional growth that follows a completed insertion: the operation has succeeded and reports so (C10-D5), '
+        'enable_segment takes its own mark back, and a later insertion retries; no user body runs in the guarded region'),
+}
+
+
 def d1_catch(facts, rep):
     # enumerate every catch(...) of the analysed code
     handlers = []
@@ -117,6 +126,14 @@ def d1_catch(facts, rep):
         terminate = any(is_call_to(fn, e, shortnames=('terminate', 'do_throw_noexcept')) for e in elems)
         # handlers in exception.cpp translate/terminate; memory_pool rethrows after cleanup
         ok = has_rethrow or captures or status or terminate
+        if not ok:
+            # Named exceptions, each with its reason, and each checked: the guarded region may contain nothing but the listed step.
+            reason = OPTIONAL_STEP_HANDLERS.get(fn.p)
+            if reason is not None:
+                guarded = [nd for nd in fn.nodes if nd and nd.get('tr') == cn.get('try') and nd.get('k') in ('call', 'ctor', 'new', 'throw')]
+                if guarded and all((fn.callee(nd['s']) or {}).get('n') in reason[0] for nd in guarded):
+                    ok = True
+                    rep.note('D1 %s: catch(...) at line %s is a named exception - %s' % (fn.p, cn['ln'], reason[1]))
         classified += 1
         rep.ob('D1', 'K9', fn, 'catch(...) at line %s rethrows, captures into the group context, or fails its own operation' % cn['ln'],
                ok, 'a catch-all handler swallows the exception', ln=cn['ln'], key_extra=str(cn['ln']))
